@@ -187,7 +187,9 @@ func (g *Gen) issueAmount(p int) string {
 // badAmount returns an amount that must be rejected somewhere (hostile / near-miss).
 func (g *Gen) badAmount(p int) string {
 	return Pick(g.R, []string{"0", "-1", "", "abc", "0." + strings.Repeat("0", p) + "1", "1." + strings.Repeat("1", p+1), "NaN", "Infinity", "1e-7", "-0", "0.0", "1e40",
-		"-0." + strings.Repeat("0", p-1) + "1", " 1", "1 ", "1,5", ".5", "5.", "+-1", "1e", "0x10", "\u0661\u0662\u0663", "1_000", "sNaN", "-Infinity", "-1e-6", "--1", "1e-" + fmt.Sprint(p+1)})
+		"-0." + strings.Repeat("0", p-1) + "1", " 1", "1 ", "1,5", ".5", "5.", "+-1", "1e", "0x10", "\u0661\u0662\u0663", "1_000", "sNaN", "-Infinity", "-1e-6", "--1", "1e-" + fmt.Sprint(p+1),
+		// a sign in a place where only some parsers look for one
+		".-5", "1.-5", ".-" + strings.Repeat("0", p-1) + "1", ".+5", "1.+5", "1e+-1", "-.5", "0.-0", fmt.Sprint(g.R.Range(1, 500)) + ".-" + fmt.Sprint(g.R.Range(1, 99))})
 }
 
 var jurisdictions = []string{"US", "US-WA", "US-WA 98225", "KE", "DE-BE", "AU-NSW 2000", "GB-ENG SW1A 1AA", "FR-75C 75001", "KE-30 a-very-long-postal-code-with-up-to-sixty-four-characters-in-it-0"}
